@@ -826,6 +826,9 @@ func (x *Exec) enterLoop(fr *Frame, li *loopInfo, entry *State, edgeStates []*St
 	ds := entry.clone()
 	for _, phi := range phis {
 		fr.regs[phi] = x.freshValue("d_"+phi.Name(), phi.Type(), ds.guard)
+		if phi.Comment == "rangeindex" && fr.regs[phi].K == KScalar {
+			x.facts = append(x.facts, Implies(ds.guard, Ge(fr.regs[phi].Term, IntLit(-1))))
+		}
 	}
 	func() {
 		x.execBlockGuarded(fr, h, ds)
@@ -966,6 +969,10 @@ func (x *Exec) enterLoop(fr *Frame, li *loopInfo, entry *State, edgeStates []*St
 		}
 		x.boundRefs(v, epoch)
 		fr.regs[phi] = v
+		if phi.Comment == "rangeindex" && v.K == KScalar {
+			// the hidden index of a range-over-slice loop starts at -1 and is only incremented
+			x.facts = append(x.facts, Implies(st.guard, Ge(v.Term, IntLit(-1))))
+		}
 	}
 	keys := make([]string, 0, len(wkeys))
 	for k := range wkeys {
@@ -1202,7 +1209,26 @@ func (x *Exec) attribute(fr *Frame, kind, label string) []string {
 	if kind == "frame" && len(c.FrameProps) > 0 {
 		return c.FrameProps
 	}
-	return c.Props
+	return propsFor(c.Props, kind)
+}
+
+// safetyKinds: obligation kinds that say "this operation cannot panic".
+var safetyKinds = map[string]bool{"nil": true, "index": true, "slice": true, "nilmap": true, "nilfunc": true, "assert": true, "panic": true, "div": true, "call.pre": true, "conv": true, "makeslice": true, "overflow": true}
+
+// propsFor: a contract's property list may qualify an entry as "Cxx:safety" - only the
+// no-panic obligations of the function count towards that property.
+func propsFor(props []string, kind string) []string {
+	var out []string
+	for _, p := range props {
+		if strings.HasSuffix(p, ":safety") {
+			if safetyKinds[kind] {
+				out = append(out, strings.TrimSuffix(p, ":safety"))
+			}
+			continue
+		}
+		out = append(out, p)
+	}
+	return out
 }
 
 // globalRef is the address of a package-level variable: distinct variables have distinct,
